@@ -26,6 +26,56 @@ func (e *Engine) loModel(fr *frame, ins ssa.Instruction, name string, fn *ssa.Fu
 		return res.ret
 	}
 	switch name {
+	case "sort.SliceStable", "sort.Slice":
+		// sort.Slice(x any, less func(i, j int) bool): afterwards the elements are a permutation of
+		// the elements before (P, with inverse Q) and no later element is less than an earlier one;
+		// SliceStable additionally keeps the order of elements neither of which is less than the other.
+		// Assumes, as the library documentation requires, that less is a strict weak ordering on the
+		// elements and reads nothing but them.
+		mi, ok := cc0(ins).(*ssa.MakeInterface)
+		if !ok {
+			return nil, reach, false
+		}
+		sv, ok := e.operand(fr, mi.X).(SliceVal)
+		fv, ok2 := args[1].(FuncVal)
+		if !ok || !ok2 {
+			return nil, reach, false
+		}
+		use()
+		et := under(mi.X.Type()).(*types.Slice).Elem()
+		n := sv.Len
+		P := e.sc.declare("sortP", arrSort(SI64, SI64))
+		Q := e.sc.declare("sortQ", arrSort(SI64, SI64))
+		i := e.sc.freshName("si")
+		inr := func(x string) string { return and(app("bvsle", bvLit(0, 64), x), app("bvslt", x, n)) }
+		e.sc.add(fmt.Sprintf("(assert (forall ((%s %s)) %s))", i, SI64, implies(inr(i), and(inr(sel(P, i)), eq(sel(Q, sel(P, i)), i), inr(sel(Q, i)), eq(sel(P, sel(Q, i)), i)))))
+		e.forLeaves(types.NewSlice(et), []pathElem{{field: -1}}, et, func(path []pathElem, suffix, leaf string, lt types.Type) {
+			c := e.comp(types.NewSlice(et), path, suffix, leaf)
+			cur := e.heapGet(heap, c)
+			old := sel(cur, sv.Arr)
+			nw := e.sc.declare("sorted_"+c.key, arrSort(SI64, leaf))
+			j := e.sc.freshName("sj")
+			rel := app("bvsub", j, sv.Off)
+			body := eq(sel(nw, j), ite(inr(rel), sel(old, app("bvadd", sv.Off, sel(P, rel))), sel(old, j)))
+			e.sc.add(fmt.Sprintf("(assert (forall ((%s %s)) %s))", j, SI64, body))
+			heap[c.key] = e.sc.define("H_"+c.key, c.sort, sto(cur, sv.Arr, ite(e.guard, nw, old)))
+			if !e.isFresh(sv.Arr) {
+				e.dirty[c.key] = true
+			}
+		})
+		// order facts, in the state after the sort
+		a := e.sc.freshName("sa")
+		b := e.sc.freshName("sb")
+		e.sc.binders = append(e.sc.binders, binder{a, SI64}, binder{b, SI64})
+		lessBA := e.scalar(callCB(fv, []Val{Sc{b, SI64}, Sc{a, SI64}})).T
+		lessAB := e.scalar(callCB(fv, []Val{Sc{a, SI64}, Sc{b, SI64}})).T
+		e.sc.binders = e.sc.binders[:len(e.sc.binders)-2]
+		rng := and(app("bvsle", bvLit(0, 64), a), app("bvslt", a, b), app("bvslt", b, n))
+		e.sc.add(fmt.Sprintf("(assert (forall ((%s %s) (%s %s)) %s))", a, SI64, b, SI64, implies(and(reach, rng), not(lessBA))))
+		if name == "sort.SliceStable" {
+			e.sc.add(fmt.Sprintf("(assert (forall ((%s %s) (%s %s)) %s))", a, SI64, b, SI64, implies(and(reach, rng, not(lessAB)), app("bvslt", sel(P, a), sel(P, b)))))
+		}
+		return nil, reach, true
 	case "github.com/samber/lo.Map":
 		// Map(collection []T, iteratee func(T, int) R) []R : len equal, result[i] == f(c[i], i)
 		use()
@@ -99,6 +149,13 @@ func (e *Engine) loModel(fr *frame, ins ssa.Instruction, name string, fn *ssa.Fu
 		return Sc{e.sc.define("contains", SBool, t), SBool}, reach, true
 	}
 	return nil, reach, false
+}
+
+func cc0(ins ssa.Instruction) ssa.Value {
+	if ci, ok := ins.(ssa.CallInstruction); ok && len(ci.Common().Args) > 0 {
+		return ci.Common().Args[0]
+	}
+	return nil
 }
 
 // mapResultArr declares the fresh backing array of a lo result slice in component c.
